@@ -173,6 +173,12 @@ def parse_report(mode, out):
                     es.append(norm_entry(line=int(num) if num else -1, col=st + 1, word=chars.enc(txt[st:en]),
                                          ctxword=chars.enc(m.group(1)) if m else []))
                     last = (title, int(num) if num else -9)
+        for tab in h.tables[1:]:
+            # messages that overlap an earlier one are listed separately, with their line number only
+            for row in tab:
+                titles = [t for (_, _, t) in row['hl']]
+                m = __import__('re').search(r'>>>(.*?)<<<', titles[0].replace('\u2002', ' ')) if titles else None
+                es.append(norm_entry(line=-1, col=-1, word=chars.enc(row['text'].replace('\u2002', ' ')), ctxword=chars.enc(m.group(1)) if m else []))
         return es
     raise ValueError(mode)
 
